@@ -484,6 +484,8 @@ pub(crate) mod cast;
 mod hint;
 mod stdlib;
 pub mod util;
+#[cfg(starlark_verif)]
+pub mod verif;
 pub mod values;
 pub mod wasm;
 
